@@ -10,6 +10,7 @@ import (
 // extractOps: the shape of the reconfiguration operations that Model/ReconfRun.v writes by hand
 //
 //	update_writes_before_interrupt — UpdateToxicJson stores the new attributes and the new toxicity before it calls chainUpdateToxic
+//	update_always_restarts         — ... and calls it unconditionally, in the same block
 //	interrupt_is_unbounded         — InterruptToxic is a select of exactly {<-closed: false | Interrupt <- : wait for running, true}
 //	ops_use_plain_interrupt        — AddToxic / UpdateToxic / RemoveToxic reach stages only through InterruptToxic()
 //	run_decides_on_every_start     — Run draws rand.Float32() on every start and compares it with toxic.Toxicity (no remembered outcome)
@@ -52,6 +53,40 @@ func extractOps(repo string, o *out) {
 		}
 	}
 	o.emit("update_writes_before_interrupt", "", "bool", wb, "true", "", "")
+
+	// update_always_restarts: the call of chainUpdateToxic is a statement of the same block as the write of the new toxicity - it is not
+	// made to depend on what changed (a stage reads some attributes only when it starts: reset_peer's timeout, the toxicity decision)
+	ar := ""
+	if fd := p.method("ToxicCollection", "UpdateToxicJson"); fd != nil && fd.Body != nil {
+		found := false
+		ast.Inspect(fd.Body, func(n ast.Node) bool {
+			b, ok := n.(*ast.BlockStmt)
+			if !ok {
+				return true
+			}
+			wrote, set := false, false
+			for _, st := range b.List {
+				if as, ok := st.(*ast.AssignStmt); ok && len(as.Lhs) == 1 && strings.HasSuffix(show(fs, as.Lhs[0]), ".Toxicity") {
+					wrote = true
+				}
+				if es, ok := st.(*ast.ExprStmt); ok {
+					if c, ok := es.X.(*ast.CallExpr); ok {
+						if strings.HasSuffix(show(fs, c.Fun), ".Set") {
+							set = true // the attribute write
+						}
+						if strings.HasSuffix(show(fs, c.Fun), ".chainUpdateToxic") && wrote && set {
+							found = true
+						}
+					}
+				}
+			}
+			return true
+		})
+		if wb != "" {
+			ar = boolS(found)
+		}
+	}
+	o.emit("update_always_restarts", "", "bool", ar, "true", "", "")
 
 	// ---- InterruptToxic
 	unb := ""
